@@ -42,6 +42,7 @@ SENT = {
     "OpaqueCallback<Pair>": (lambda i: "mk_cb<Pair>(0x4000 + %d)" % i, lambda a, b: "((%s).context == (%s).context && (%s).func == (%s).func)" % (a, b, a, b)),
     "KeyValueCallback": (lambda i: "mk_cb<KeyValue>(0x4100 + %d)" % i, lambda a, b: "((%s).context == (%s).context && (%s).func == (%s).func)" % (a, b, a, b)),
     "CIterator<int32_t>": (lambda i: "mk_it(0x4200 + %d)" % i, lambda a, b: "((%s).iter == (%s).iter && (%s).func == (%s).func)" % (a, b, a, b)),
+    "CTup2<int32_t, Pair>": (lambda i: "mk_tup(%d)" % i, lambda a, b: "((%s)._0 == (%s)._0 && (%s)._1.a == (%s)._1.a && (%s)._1.b == (%s)._1.b)" % (a, b, a, b, a, b)),
     "FNPTR": (lambda i: "sent_fn", lambda a, b: "(%s) == (%s)" % (a, b)),
 }
 
@@ -56,6 +57,8 @@ def helpers(header_text):
         h.append("static CSliceRef<uint8_t> mk_slice(int i) { CSliceRef<uint8_t> s; s.data = (const uint8_t *)(uintptr_t)(0x1000 + i); s.len = 77 + i; return s; }")
     if "struct Pair" in header_text:
         h.append("static Pair mk_pair(int i) { Pair p; p.a = (uint8_t)(0x21 + i); p.b = 0x9900 + i; return p; }")
+    if "struct CTup2" in header_text and "struct Pair" in header_text:
+        h.append("static CTup2<int32_t, Pair> mk_tup(int i) { CTup2<int32_t, Pair> t; t._0 = -777 - i; t._1.a = (uint8_t)(0x31 + i); t._1.b = 0x7700 + i; return t; }")
     if "struct Callback" in header_text:
         h.append("template<typename T> static Callback<void, T> mk_cb(int i) { Callback<void, T> c; c.context = (void *)(uintptr_t)i; c.func = &sent_cb_t<T>; return c; }")
     if "struct CIterator" in header_text:
